@@ -231,7 +231,7 @@ theorem loop_index (C : Cfg) (rec : Nat → P Expr) (m n : Nat) (lhs i : Expr) (
       = prattLoop C rec m n (.getItem lhs i false) neg ⟨rest, a', b' - 1⟩ := by
   have e1 : (ts.head? == some Tok.colon) = false := by simpa using hcolon
   have e2 : (Tok.leftBracket == Tok.questionMarkLeftBracket) = false := by decide
-  simp [prattLoop, P.bind_apply, classify_leftBracket, parseSubscript, expect_cons, hb, e1, hi, e2]
+  simp [prattLoop, P.bind_apply, classify_leftBracket, parseSubscript, subscriptStart, subscriptSlice, expect_cons, hb, e1, hi, e2]
 
 
 /-! ### identifier chains (`parse_ident`) -/
@@ -280,7 +280,7 @@ theorem chain_sub (C : Cfg) (rec : Nat → P Expr) (root : String) (n : Nat) (e 
   have e1 : (ts.head? == some Tok.colon) = false := by simpa using hcolon
   have e2 : (Tok.leftBracket == Tok.questionMarkLeftBracket) = false := by decide
   cases o <;>
-    simp [identChain, P.bind_apply, parseSubscript, expect_cons, hb, e1, hi, e2]
+    simp [identChain, P.bind_apply, parseSubscript, subscriptStart, subscriptSlice, expect_cons, hb, e1, hi, e2]
 
 
 /-! ### argument lists (`parse_kwargs`) -/
@@ -495,5 +495,175 @@ theorem prefix_map (C : Cfg) (rec : Nat → P Expr) (xs : List MapEntry) (lit : 
   simp only [parsePrefix, bind_def, P.bind_apply, nextOrError_cons _ _ _ _ (by decide : Tok.leftBrace ≠ .error)]
   simp only [parseMap, bind_def, P.bind_apply, loopFuel_apply, h]
   cases lit <;> simp [P.bind_apply, expect_cons]
+
+
+/-! ### list comprehensions (`parse_list_comprehension`) -/
+
+/-- the `for [key,] value in` part -/
+def compHead (key : Option String) (value : String) : List Tok :=
+  .ident "for" :: (S.keyToks key ++ [.ident value, .ident "in"])
+
+theorem listComp_step (C : Cfg) (rec : Nat → P Expr) (x tg : Expr) (key : Option String)
+    (value : String) (tts cts : List Tok) (a b a2 b2 : Nat) (cond : Option Expr) (st' : PState)
+    (hv : value ∉ Gen.RESERVED_NAMES)
+    (hk : ∀ k, key = some k → k ∉ Gen.RESERVED_NAMES)
+    (ht : rec (C.bp.ternary + 1) ⟨tts, a, b⟩ = .ok tg ⟨cts, a2, b2⟩)
+    (hc : match cond with
+      | none => ∃ ts', cts = .rightBracket :: ts' ∧ st' = ⟨ts', a2, b2⟩
+      | some c => ∃ cs ts' a3 b3, cts = .ident "if" :: cs
+          ∧ rec (C.bp.ternary + 1) ⟨cs, a2, b2⟩ = .ok c ⟨.rightBracket :: ts', a3, b3⟩
+          ∧ st' = ⟨ts', a3, b3⟩) :
+    parseListComprehension C rec x ⟨compHead key value ++ tts, a, b⟩
+      = .ok (.listComprehension x key value tg cond) st' := by
+  have e1 : (Tok.ident "in" == Tok.comma) = false := by decide
+  have e2 : (Tok.rightBracket == Tok.ident "if") = false := by decide
+  have e3 : (Tok.rightBracket == Tok.ident "for") = false := by decide
+  cases key with
+  | none =>
+    cases cond with
+    | none =>
+      obtain ⟨ts', rfl, rfl⟩ := hc
+      simp [parseListComprehension, compHead, S.keyToks, P.bind_apply, expect_cons, expectIdent_cons, hv, ht,
+        e1, e2, e3]
+    | some c =>
+      obtain ⟨cs, ts', a3, b3, rfl, hcr, rfl⟩ := hc
+      simp [parseListComprehension, compHead, S.keyToks, P.bind_apply, expect_cons, expectIdent_cons, hv, ht,
+        e1, e3, hcr]
+  | some k =>
+    have hk' := hk k rfl
+    cases cond with
+    | none =>
+      obtain ⟨ts', rfl, rfl⟩ := hc
+      simp [parseListComprehension, compHead, S.keyToks, P.bind_apply, expect_cons, expectIdent_cons, hv, hk',
+        ht, e2, e3]
+    | some c =>
+      obtain ⟨cs, ts', a3, b3, rfl, hcr, rfl⟩ := hc
+      simp [parseListComprehension, compHead, S.keyToks, P.bind_apply, expect_cons, expectIdent_cons, hv, hk',
+        ht, e3, hcr]
+
+theorem prefix_comp (C : Cfg) (rec : Nat → P Expr) (x : Expr) (lc : Expr) (ets rest : List Tok)
+    (a b a1 b1 : Nat) (st' : PState) (hdim : ¬ a + 1 > C.maxArray)
+    (h1 : ets.head? ≠ some .rightBracket) (h2 : ets.head? ≠ some .spread)
+    (hx : rec 0 ⟨ets, a + 1, b⟩ = .ok x ⟨.ident "for" :: rest, a1, b1⟩)
+    (hl : parseListComprehension C rec x ⟨.ident "for" :: rest, a1 - 1, b1⟩ = .ok lc st') :
+    parsePrefix C rec ⟨.leftBracket :: ets, a, b⟩ = .ok lc st' := by
+  have e1 : (ets.head? == some Tok.rightBracket) = false := by simpa using h1
+  have e2 : (ets.head? == some Tok.spread) = false := by simpa using h2
+  simp only [parsePrefix, bind_def, P.bind_apply, nextOrError_cons _ _ _ _ (by decide : Tok.leftBracket ≠ .error)]
+  simp [parseArray, P.bind_apply, hdim, arrayLoop, e1, e2, hx, hl]
+
+
+/-! ### slices (`parse_subscript`, the `:` forms) -/
+
+theorem subscript_slice (C : Cfg) (rec : Nat → P Expr) (e : Expr) (o : Bool)
+    (A B Cc : Option Expr) (ts0 t1 t2 rest : List Tok) (a b a1 b1 a2 b2 a3 b3 : Nat)
+    (hb : ¬ b + 1 > C.maxBrackets)
+    (hA : match A with
+      | none => ts0 = .colon :: t1 ∧ a1 = a ∧ b1 = b + 1
+      | some x => ts0.head? ≠ some .colon ∧ rec 0 ⟨ts0, a, b + 1⟩ = .ok x ⟨.colon :: t1, a1, b1⟩)
+    (hB : match B with
+      | none => (t1.head? = some .colon ∨ t1.head? = some .rightBracket) ∧ t2 = t1 ∧ a2 = a1 ∧ b2 = b1
+      | some x => t1.head? ≠ some .colon ∧ t1.head? ≠ some .rightBracket
+          ∧ rec 0 ⟨t1, a1, b1⟩ = .ok x ⟨t2, a2, b2⟩)
+    (hC : match Cc with
+      | none => t2 = .rightBracket :: rest ∧ a3 = a2 ∧ b3 = b2
+      | some x => ∃ t3, t2 = .colon :: t3
+          ∧ rec 0 ⟨t3, a2, b2⟩ = .ok x ⟨.rightBracket :: rest, a3, b3⟩) :
+    parseSubscript C rec e
+        ⟨(if o then Tok.questionMarkLeftBracket else Tok.leftBracket) :: ts0, a, b⟩
+      = .ok (.slice e A B Cc o) ⟨rest, a3, b3 - 1⟩ := by
+  have q1 : (Tok.leftBracket == Tok.questionMarkLeftBracket) = false := by decide
+  have q2 : (Tok.rightBracket == Tok.colon) = false := by decide
+  cases A with
+  | none =>
+    obtain ⟨rfl, rfl, rfl⟩ := hA
+    cases B with
+    | none =>
+      obtain ⟨hh, rfl, rfl, rfl⟩ := hB
+      cases Cc with
+      | none =>
+        obtain ⟨rfl, rfl, rfl⟩ := hC
+        cases o <;> simp [parseSubscript, subscriptStart, subscriptSlice, P.bind_apply, expect_cons, hb, q1, q2]
+      | some z =>
+        obtain ⟨t3, rfl, hz⟩ := hC
+        cases o <;> simp [parseSubscript, subscriptStart, subscriptSlice, P.bind_apply, expect_cons, hb, q1, hz]
+    | some y =>
+      obtain ⟨h1, h2, hy⟩ := hB
+      have e1 : (t1.head? == some Tok.colon) = false := by simpa using h1
+      have e2 : (t1.head? == some Tok.rightBracket) = false := by simpa using h2
+      cases Cc with
+      | none =>
+        obtain ⟨rfl, rfl, rfl⟩ := hC
+        cases o <;> simp [parseSubscript, subscriptStart, subscriptSlice, P.bind_apply, expect_cons, hb, q1, q2, e1, e2, hy]
+      | some z =>
+        obtain ⟨t3, rfl, hz⟩ := hC
+        cases o <;> simp [parseSubscript, subscriptStart, subscriptSlice, P.bind_apply, expect_cons, hb, q1, e1, e2, hy, hz]
+  | some x =>
+    obtain ⟨h0, hx⟩ := hA
+    have e0 : (ts0.head? == some Tok.colon) = false := by simpa using h0
+    cases B with
+    | none =>
+      obtain ⟨hh, rfl, rfl, rfl⟩ := hB
+      cases Cc with
+      | none =>
+        obtain ⟨rfl, rfl, rfl⟩ := hC
+        cases o <;> simp [parseSubscript, subscriptStart, subscriptSlice, P.bind_apply, expect_cons, hb, q1, q2, e0, hx]
+      | some z =>
+        obtain ⟨t3, rfl, hz⟩ := hC
+        cases o <;> simp [parseSubscript, subscriptStart, subscriptSlice, P.bind_apply, expect_cons, hb, q1, e0, hx, hz]
+    | some y =>
+      obtain ⟨h1, h2, hy⟩ := hB
+      have e1 : (t1.head? == some Tok.colon) = false := by simpa using h1
+      have e2 : (t1.head? == some Tok.rightBracket) = false := by simpa using h2
+      cases Cc with
+      | none =>
+        obtain ⟨rfl, rfl, rfl⟩ := hC
+        cases o <;> simp [parseSubscript, subscriptStart, subscriptSlice, P.bind_apply, expect_cons, hb, q1, q2, e0, e1, e2, hx, hy]
+      | some z =>
+        obtain ⟨t3, rfl, hz⟩ := hC
+        cases o <;> simp [parseSubscript, subscriptStart, subscriptSlice, P.bind_apply, expect_cons, hb, q1, e0, e1, e2, hx, hy, hz]
+
+theorem loop_subscript (C : Cfg) (rec : Nat → P Expr) (m n : Nat) (lhs e' : Expr) (neg : Bool)
+    (ts : List Tok) (a b : Nat) (st' : PState)
+    (h : parseSubscript C rec lhs ⟨.leftBracket :: ts, a, b⟩ = .ok e' st') :
+    prattLoop C rec m (n + 1) lhs neg ⟨.leftBracket :: ts, a, b⟩ = prattLoop C rec m n e' neg st' := by
+  simp [prattLoop, P.bind_apply, classify_leftBracket, h]
+
+theorem chain_subscript (C : Cfg) (rec : Nat → P Expr) (root : String) (n : Nat) (e e' : Expr)
+    (o : Bool) (ts : List Tok) (a b : Nat) (st' : PState)
+    (h : parseSubscript C rec e
+      ⟨(if o then Tok.questionMarkLeftBracket else Tok.leftBracket) :: ts, a, b⟩ = .ok e' st') :
+    identChain C rec root (n + 1) e
+        ⟨(if o then Tok.questionMarkLeftBracket else Tok.leftBracket) :: ts, a, b⟩
+      = identChain C rec root n e' st' := by
+  cases o
+  · simp only [Bool.false_eq_true, if_false] at h ⊢
+    simp [identChain, P.bind_apply, h]
+  · simp only [if_true] at h ⊢
+    simp [identChain, P.bind_apply, h]
+
+
+/-! ### trailing commas -/
+
+theorem kwargs_trailing (rec : Nat → P Expr) (n : Nat) (acc : List (String × Expr))
+    (ts : List Tok) (a b : Nat) (h : acc.isEmpty = false) :
+    kwargsLoop rec (n + 1) acc ⟨.comma :: .rightParen :: ts, a, b⟩
+      = .ok acc ⟨.rightParen :: ts, a, b⟩ := by
+  have e1 : (Tok.comma == Tok.rightParen) = false := by decide
+  simp [kwargsLoop, P.bind_apply, expect_cons, h, e1]
+
+theorem array_trailing (C : Cfg) (rec : Nat → P Expr) (n : Nat) (acc : List ArrayEntry) (lit : Bool)
+    (ts : List Tok) (a b : Nat) (h : acc.isEmpty = false) :
+    arrayLoop C rec (n + 1) acc lit ⟨.comma :: .rightBracket :: ts, a, b⟩
+      = .ok (.items acc lit) ⟨.rightBracket :: ts, a, b⟩ := by
+  have e1 : (Tok.comma == Tok.rightBracket) = false := by decide
+  simp [arrayLoop, P.bind_apply, expect_cons, h, e1]
+
+theorem map_trailing (rec : Nat → P Expr) (n : Nat) (acc : List MapEntry) (lit : Bool)
+    (ts : List Tok) (a b : Nat) (h : acc.isEmpty = false) :
+    mapLoop rec (n + 1) acc lit ⟨.comma :: .rightBrace :: ts, a, b⟩
+      = .ok (acc, lit) ⟨.rightBrace :: ts, a, b⟩ := by
+  have e1 : (Tok.comma == Tok.rightBrace) = false := by decide
+  simp [mapLoop, P.bind_apply, expect_cons, h, e1]
 
 end Tera.Parser
